@@ -140,7 +140,9 @@ def run(seed, n_random, stats):
             if len(stats.samples) < 4:
                 stats.samples.append({"line": text, "expected": exp, "library": a})
     mm2, vv2 = run_guards(seed, 49 if n_random <= 2000 else 409, stats)
-    return mismatches + mm2, violations + vv2
+    import fecheck
+    mm3, vv3 = fecheck.run(seed, 20 if n_random <= 2000 else 240, stats)
+    return mismatches + mm2 + mm3, violations + vv2 + vv3
 
 # ---------------------------------------------------------------------------------------------------
 # guard expressions: the grammar of C++ precedence (or-chains of and-chains of unary expressions), any nesting
